@@ -890,7 +890,7 @@ Section StepShiftR.
       + apply add_log_ok.
       + cbv zeta.
         set (okd := (value_range 2 b 64 =? 2) || (value_range 2 b 64 =? 4) || (value_range 2 b 64 =? 8) || (value_range 2 b 64 =? 16)).
-        change (s_lineno s') with (s_lineno s).
+        change (s_lineno s') with (s_lineno s). change (s_ja s') with (s_ja s).
         match goal with |- context [add_log s ?m] => set (msg := m) end.
         set (s1 := if okd then s else add_log s msg).
         assert (E1 : (if okd then s' else add_log s' msg) = put L h t' s1)
